@@ -348,12 +348,10 @@ impl<T: ColumnType> std::fmt::Display for Record<T> {
                 Condition::OnlyIf { label } => write!(f, "onlyif {label}"),
                 Condition::SkipIf { label } => write!(f, "skipif {label}"),
             },
-            Record::Connection(conn) => {
-                if let Connection::Named(conn) = conn {
-                    write!(f, "connection {}", conn)?;
-                }
-                Ok(())
-            }
+            Record::Connection(conn) => match conn {
+                Connection::Default => write!(f, "connection default"),
+                Connection::Named(conn) => write!(f, "connection {}", conn),
+            },
             Record::HashThreshold { loc: _, threshold } => {
                 write!(f, "hash-threshold {threshold}")
             }
